@@ -89,6 +89,31 @@ pub trait Uf: Clone {
     fn kind() -> &'static str;
 }
 
+/// Element type whose Hash is (legitimately) coarser than its Eq: all elements with the same `bucket`
+/// collide, so a partition that identified elements by hash alone would merge them.
+#[derive(Clone, Debug, PartialEq, Eq)]
+pub struct Coarse {
+    bucket: u8,
+    id: u16,
+}
+impl std::hash::Hash for Coarse {
+    fn hash<H: std::hash::Hasher>(&self, state: &mut H) {
+        self.bucket.hash(state);
+    }
+}
+impl Elem for Coarse {
+    fn make(k: usize) -> Self {
+        Coarse { bucket: (k % 3) as u8, id: k as u16 }
+    }
+    fn index(&self) -> usize {
+        if self.bucket as usize == self.id as usize % 3 {
+            self.id as usize
+        } else {
+            usize::MAX
+        }
+    }
+}
+
 fn index_of<T: Elem>(x: &T) -> usize {
     x.index()
 }
@@ -122,6 +147,7 @@ macro_rules! gen_uf {
 gen_uf!(UfUsize, usize, "Partition<usize>");
 gen_uf!(UfString, String, "Partition<String>");
 gen_uf!(UfPair, (u8, u8), "Partition<(u8,u8)>");
+gen_uf!(UfCoarse, Coarse, "Partition<Coarse (hash coarser than Eq)>");
 
 #[derive(Clone)]
 pub struct UfInt(IntPartition);
@@ -469,6 +495,7 @@ pub fn run(cfg: &Cfg) -> Report {
     run_typed::<UfUsize>(cfg, &mut report, ex, rn);
     run_typed::<UfString>(cfg, &mut report, ex - 1, rn / 2);
     run_typed::<UfPair>(cfg, &mut report, ex - 1, rn / 2);
+    run_typed::<UfCoarse>(cfg, &mut report, ex - 1, rn / 2);
 
     report.rule = "histories of unite/find/classes/clone over 3 live instances (originals and clones interleaved) for IntPartition and Partition<usize|String|(u8,u8)>: all histories of the exhaustive length over a 16-letter operation alphabet on a 4-element universe, plus random histories of ~200 operations over 8/16/64 elements in three observation modes (full queries after each step; queries only through fresh clones; long unite-only stretches then query bursts). Non-trivial = at least one union joining two multi-element classes and at least one operation on an instance after it took part in a clone; distinct = distinct history digests".into();
     report.explanation = "every answer compared with a label-array partition per instance (quick-find); representative stability judged on the instance itself; clone independence judged in both directions".into();
@@ -494,6 +521,7 @@ pub fn replay(ctx: &mut Ctx, input: &Value) -> bool {
         "Partition<usize>" => run_history::<UfUsize>(ctx, universe, &ops),
         "Partition<String>" => run_history::<UfString>(ctx, universe, &ops),
         "Partition<(u8,u8)>" => run_history::<UfPair>(ctx, universe, &ops),
+        "Partition<Coarse (hash coarser than Eq)>" => run_history::<UfCoarse>(ctx, universe, &ops),
         _ => return false,
     };
     true
